@@ -104,7 +104,7 @@ class C02:
     def gen(self, rng, tier, index):
         spec = X.gen_spec(rng, max_groups=2, small=True, flavours=(("sim", 6), ("logged", 1)))
         spec["quiet"] = True
-        return {"spec": wrap_spec(spec), "config": X.gen_config(rng), "knobs": X.gen_knobs(rng),
+        return {"spec": wrap_spec(spec), "config": X.gen_config(rng), "resume_config": X.gen_config(rng), "knobs": X.gen_knobs(rng),
                 "gz": index % 3 == 2, "exhaustive": tier == "thorough" and index % 4 == 0,
                 "resume_sim_every": 7, "offset_seed": rng.randrange(1 << 30), "second_gen": rng.random() < 0.5}
 
@@ -231,7 +231,7 @@ class C02:
 
     def _check_resume(self, cfg, spec, path, prefix, n, where, is_gz, t_full, ids, full_log_text, seed, simulated, add, out, depth):
         kind = "gz" if is_gz else "plain"
-        tabs, exc, calls, log, exp = self.resume(spec, path, cfg["config"], seed ^ (n * 2654435761 & 0xFFFFFFFF), cfg["knobs"], simulated)
+        tabs, exc, calls, log, exp = self.resume(spec, path, cfg.get("resume_config", cfg["config"]), seed ^ (n * 2654435761 & 0xFFFFFFFF), cfg["knobs"], simulated)
         out["counters"]["resumes"] = out["counters"].get("resumes", 0) + 1
         out["counters"][f"fault.crash_{where}"] = out["counters"].get(f"fault.crash_{where}", 0) + 1
         if simulated:
